@@ -24,6 +24,8 @@ for m in sorted(glob.glob(os.path.join(outdir, "m*"))):
     res = {"mutation": m, "property": prop}
     clean()
     demo = meta.get("demo_cmd", "")
+    import re
+    demo = re.sub(r"\s*;\s*rm\s+(-r?f?\s+)?\S+\s*$", "", demo)   # keep the test's exit status (git clean removes the files)
     rc0, out0 = sh(demo, cwd=wt)
     res["demo_without_patch_rc"] = rc0
     clean()
@@ -37,7 +39,14 @@ for m in sorted(glob.glob(os.path.join(outdir, "m*"))):
     res["demo_with_patch_tail"] = out1[-600:]
     sh("git clean -fdq", cwd=wt)   # remove demo files, keep the patch
     res["checks"] = {}
-    for p in props:
+    if os.environ.get("DEMO_ONLY"):
+        old = os.path.join(m, "result.json")
+        if os.path.exists(old):
+            res["checks"] = json.load(open(old)).get("checks", {})
+        props_run = []
+    else:
+        props_run = props
+    for p in props_run:
         t = time.time()
         e2 = dict(env, VERIF_REPO=wt)
         pr = subprocess.run(["./check", p, "--tier", "quick"], cwd="/verif", env=e2, capture_output=True, text=True, timeout=7200)
